@@ -300,7 +300,7 @@ prop("C16", "exploration",
      "key, value) must be identical in all repetitions. Non-trivial there = an unrelated execution ran in between and T "
      "had >= 2 frames.",
      [{"test": "TestC16", "quick": {"checks": 350, "shards": 8, "timeout": 600},
-       "thorough": {"checks": 8000, "shards": 16, "timeout": 7200}},
+       "thorough": {"checks": 3000, "shards": 16, "timeout": 7200}},
       {"test": "TestC16Tx", "quick": {"checks": 600, "shards": 8, "timeout": 600},
        "thorough": {"checks": 40000, "shards": 16, "timeout": 7200}}])
 
